@@ -300,7 +300,15 @@ static void t_ref(int dir, const uint8_t *blk, uint8_t *out)
     static struct { uint64_t h; uint8_t out[16]; } *memo; const size_t N = 1u << 18;
     uint64_t h; size_t slot;
     if (!memo) memo = calloc(N, sizeof(*memo));
-    h = fnv1a(blk, 16, fnv1a(TW.tweak, 16, FNV_INIT + (uint64_t)(((int)t_c * 2 + dir) * 64 + TW.ki * 8 + TW.klen / 8)));
+    {
+        /* the whole key is hashed as one buffer with a fixed seed (FNV seeds that differ in a
+         * few low bits collide with inputs whose first byte differs by the same bits) */
+        uint8_t kb[40];
+        kb[0] = (uint8_t)t_c; kb[1] = (uint8_t)dir; kb[2] = (uint8_t)TW.ki; kb[3] = (uint8_t)TW.klen;
+        memcpy(kb + 4, TW.tweak, 16); memcpy(kb + 20, blk, 16); memset(kb + 36, 0x5A, 4);
+        h = fnv1a(kb, sizeof(kb), FNV_INIT);
+        h ^= fnv1a(kb, sizeof(kb), 0x9ae16a3b2f90404fULL) << 1;
+    }
     if (!h) h = 1;
     slot = (size_t)(h >> 11) & (N - 1);
     if (memo && memo[slot].h == h) { memcpy(out, memo[slot].out, 16); return; }
